@@ -1,8 +1,77 @@
 //! Verification hook (compiled only with `--cfg quinn_rs_quinn_verif`).
+//!
+//! Component: `path_responses` — the real [`PathResponses`] queue of PATH_RESPONSE frames owed to
+//! peer-chosen remotes. A remote is an integer `r` mapped to `[::ffff:0:r_hi]:r_lo`-style distinct
+//! socket addresses (IPv6 address from the upper bits, port from the low 16 bits).
+//!
+//! ops:
+//!   [0, packet, token, remote]   push(packet, token, remote)
+//!   [1, remote]                  pop_off_path(remote)  -> [len, 0] | [len, 1, token, remote']
+//!   [2, remote]                  pop_on_path(remote)   -> [len, 0] | [len, 1, token]
+//!   [3]                          is_empty()            -> [len, empty as 0/1]
+//! every observation starts with the queue length after the op; push -> [len].
 #![allow(missing_docs, dead_code, unused_imports, unreachable_pub, clippy::all)]
+use std::net::{Ipv6Addr, SocketAddr};
+
 use super::{Ops, Outs};
+use crate::connection::paths::PathResponses;
+
+fn addr(r: i128) -> SocketAddr {
+    let r = r as u64;
+    SocketAddr::new(
+        Ipv6Addr::new(0xfd00, 0, 0, 0, (r >> 48) as u16, (r >> 32) as u16, (r >> 16) as u16, 1)
+            .into(),
+        r as u16,
+    )
+}
+
+fn unaddr(a: SocketAddr) -> i128 {
+    match a {
+        SocketAddr::V6(a) => {
+            let s = a.ip().segments();
+            (((s[4] as u64) << 48) | ((s[5] as u64) << 32) | ((s[6] as u64) << 16) | a.port() as u64)
+                as i128
+        }
+        SocketAddr::V4(_) => -1,
+    }
+}
+
+fn path_responses(ops: &Ops) -> Outs {
+    let mut q = PathResponses::default();
+    ops.iter()
+        .map(|op| match op[0] {
+            0 => {
+                q.push(op[1] as u64, op[2] as u64, addr(op[3]));
+                vec![q.verif_len() as i128]
+            }
+            1 => match q.pop_off_path(addr(op[1])) {
+                None => vec![q.verif_len() as i128, 0],
+                Some((t, a)) => vec![q.verif_len() as i128, 1, t as i128, unaddr(a)],
+            },
+            2 => match q.pop_on_path(addr(op[1])) {
+                None => vec![q.verif_len() as i128, 0],
+                Some(t) => vec![q.verif_len() as i128, 1, t as i128],
+            },
+            3 => vec![q.verif_len() as i128, q.is_empty() as i128],
+            _ => vec![-1],
+        })
+        .collect()
+}
+
+/// `MAX_PATH_RESPONSES` is a function-local constant of `PathResponses::push`; it is measured
+/// behaviourally: the queue length after pushing 1000 distinct remotes.
+pub(crate) fn max_path_responses_probe() -> i128 {
+    let mut q = PathResponses::default();
+    for r in 0..1000 {
+        q.push(r as u64, r as u64, addr(r));
+    }
+    q.verif_len() as i128
+}
 
 /// Interpret `ops` for component `comp`; `None` if `comp` is not served by this module.
-pub(crate) fn run(_comp: &str, _ops: &Ops) -> Option<Outs> {
-    None
+pub(crate) fn run(comp: &str, ops: &Ops) -> Option<Outs> {
+    match comp {
+        "path_responses" => Some(path_responses(ops)),
+        _ => None,
+    }
 }
